@@ -17,7 +17,10 @@ from checks import sched_common as sc
 KIND = {  # kind -> (class/driver, count, capacity request)
     "net": ("net", 1, 0), "net2": ("net", 2, 0), "shm2": ("shm", 1, 2), "shm3": ("shm", 1, 3), "gpu": ("gpu", 1, 0), "tshm": ("tshm", 1, 3),
     "gpu2": ("gpu", 2, 0), "shm": ("shm", 1, 0), "gpuall": ("gpu", 0, 0), "netall": ("net", 0, 0),
+    # FirstAvailable: the first alternative, else the second (ALT) - instance types of one NodeClaim may settle on different alternatives
+    "fa-gpu2-gpu": ("gpu", 2, 0), "fa-gpu2-net": ("gpu", 2, 0), "fa-net2-gpu": ("net", 2, 0), "fa-shm3-tshm": ("shm", 1, 3),
 }
+ALT = {"fa-gpu2-gpu": ("gpu", 1), "fa-gpu2-net": ("net", 1), "fa-net2-gpu": ("gpu", 1), "fa-shm3-tshm": ("tshm", 1)}
 
 
 def off(zone, ct="od", price=100, available=True):
@@ -37,7 +40,7 @@ def pool(name="p0", weight=0, reqs=()):
 def claim(name, kind, alloc=(), reserved=(), zone="", others=0):
     cls, count, cap = KIND[kind]
     return {"name": name, "ns": "default", "class": cls, "count": count, "all": kind.endswith("all"), "capReq": cap, "alloc": list(alloc),
-            "allocZone": zone, "reserved": list(reserved), "others": others}
+            "allocZone": zone, "reserved": list(reserved), "others": others, "altClass": ALT.get(kind, ("", 0))[0], "altCount": ALT.get(kind, ("", 0))[1]}
 
 
 def classes(drivers):
@@ -177,6 +180,8 @@ def explore_dra(rng, name="d"):
     kinds = ["gpu", "gpu", "gpu2"] + (["net", "net", "net2"] if nnet else []) + (["shm2", "shm3", "shm3", "shm"] if shared else []) + ["tshm"]
     if rng.random() < 0.12:
         kinds += ["gpuall"] + (["netall"] if nnet else [])
+    if rng.random() < 0.25:
+        kinds += ["fa-gpu2-gpu", "fa-gpu2-gpu"] + (["fa-gpu2-net", "fa-net2-gpu"] if nnet else []) + (["fa-shm3-tshm"] if shared else [])
     small = min(cpus)
     sizes = [small // 5, small // 3, small // 2 - 50, small - 200, small + 200]
     npods = rng.choice([2, 3, 3, 4, 5, 6, 7])
